@@ -30,7 +30,8 @@ PROBES = ["pred_chunk_lacks_fold", "one_row_last_chunk", "spectrum_split_across_
           "switch_in_get_rows", "switch_in_save_chunks", "parquet", "workers>=8", "dedup_off", "rollup_off",
           "multi_file", "order_sensitive_learner", "sklearn_learner", "merge_chunk_small", "protein_level",
           "pep_files_compared_strictly", "pep_files_checked_for_shape_only", "feature_with_missing_values", "ensemble_mode", "proba_only_learner",
-          "spectrum_key_with_missing_values", "parquet_dictionary_typed_strings", "parquet_written_from_sliced_frame", "text_feature_starts_with_whole_numbers", "train_set_blocks>=2"]
+          "spectrum_key_with_missing_values", "parquet_dictionary_typed_strings", "parquet_written_from_sliced_frame", "text_feature_starts_with_whole_numbers", "train_set_blocks>=2",
+          "parquet_missing_values_stored_as_nan", "identifier_slice_holds_only_the_feature_with_missing_values"]
 RULE = (
     "Each scenario = one seeded tie-free data set + configuration (learner, folds, seeds, rollup/decoy/dedup "
     "switches) executed as reference (text, knobs > file, 1 worker, no threads) and as perturbed execution "
@@ -102,6 +103,16 @@ def make_scenario(seed):
             kn[name] = datagen.knob_value(rng, n_, extra=(max(1, n_ // folds - 1), n_ // folds + 1, folds, 2 * folds))
     if rng.random() < 0.5:
         kn["CHUNK_SIZE_COLUMNS_FOR_DROP_COLUMNS"] = rng.randint(1, 25)
+    r_col = random.Random(f"colslice|{seed}")
+    if dp.get("nan_feature") and r_col.random() < 0.5:
+        # boundary relation planted: the column slice that carries the identifier columns holds, besides them, exactly the
+        # feature with missing values (and the file is scanned in >= 2 row chunks, the missing values not all in the last)
+        n_id = 1 + len(dp["spec_extra"]) + 1
+        n_feat_cols = dp["n_features"] + 2
+        good = [c for c in range(n_id + 1, 26) if (n_feat_cols + n_id) % c == n_id + 1]
+        if good:
+            kn["CHUNK_SIZE_COLUMNS_FOR_DROP_COLUMNS"] = r_col.choice(good)
+            kn["CHUNK_SIZE_ROWS_FOR_DROP_COLUMNS"] = r_col.choice([1, 2, 7, max(1, min(sizes) // 3), max(1, min(sizes) - 1)])
     r_blk = random.Random(f"blk|{seed}")
     if r_blk.random() < 0.4:
         kn["TRAIN_SETS_BLOCK_SIZE"] = datagen.knob_value(r_blk, r_blk.choice(sizes), extra=(folds, 7, 50))
@@ -120,6 +131,8 @@ def make_scenario(seed):
         pert["dict_strings"] = True  # low-cardinality string columns stored dictionary-typed (a pandas Categorical)
     if fmt == "parquet" and rng.random() < 0.3:
         pert["index_start"] = rng.choice([1, 40, 10**6])  # the file was written by pandas from a sliced frame
+    if fmt == "parquet" and random.Random(f"nanv|{seed}").random() < 0.4:
+        pert["nan_values"] = True  # missing values of float columns stored as NaN values, not as Parquet nulls
     if rng.random() < 0.3:
         # %g-style text: whole numbers without a decimal point, and a feature that starts with whole numbers
         cfg["g_format"] = True
@@ -287,6 +300,14 @@ def _coefs(models):
     return out
 
 
+def _id_slice_only_nan(dp, kn, n_rows):
+    if not dp.get("nan_feature") or "CHUNK_SIZE_COLUMNS_FOR_DROP_COLUMNS" not in kn:
+        return False
+    c = kn["CHUNK_SIZE_COLUMNS_FOR_DROP_COLUMNS"]
+    n_id = 1 + len(dp["spec_extra"]) + 1
+    return (dp["n_features"] + 2 + n_id) % c == n_id + 1 and kn.get("CHUNK_SIZE_ROWS_FOR_DROP_COLUMNS", 10**9) < min(n_rows)
+
+
 def run_scenario(scn, workdir):
     tables = P.build_tables(scn["data"])
     cfg = dict(scn["cfg"])
@@ -317,6 +338,7 @@ def run_scenario(scn, workdir):
                          knobs=ref_knobs, glob_seed=None)
     cfg2 = dict(cfg)
     cfg2["max_workers"] = pert["max_workers"]
+    cfg2["parquet_nan_values"] = bool(pert.get("nan_values"))
     got = P.run_pipeline(tables, cfg2, workdir, "pert", fmt=pert["format"], row_group=pert.get("row_group"),
                          sched_desc=pert.get("sched"), knobs=pert.get("knobs"), glob_seed=pert.get("glob_seed"),
                          dict_strings=bool(pert.get("dict_strings")), index_start=int(pert.get("index_start") or 0))
@@ -351,6 +373,8 @@ def run_scenario(scn, workdir):
         "text_feature_starts_with_whole_numbers": int(bool(scn["data"].get("whole_head"))),
         "ensemble_mode": int(bool(cfg.get("ensemble"))),
         "train_set_blocks>=2": int(kn.get("TRAIN_SETS_BLOCK_SIZE", 10**9) < nmax),
+        "identifier_slice_holds_only_the_feature_with_missing_values": int(_id_slice_only_nan(scn["data"], kn, n_rows)),
+        "parquet_missing_values_stored_as_nan": int(bool(pert.get("nan_values")) and bool(scn["data"].get("nan_feature") or scn["data"].get("nan_key"))),
     }
     rg = pert.get("row_group")
     if pert["format"] == "parquet" and rg:
@@ -524,6 +548,8 @@ def shrink_candidates(scn):
         c = clone(scn); c["pert"]["dict_strings"] = False; yield c
     if scn["pert"].get("index_start"):
         c = clone(scn); c["pert"]["index_start"] = 0; yield c
+    if scn["pert"].get("nan_values"):
+        c = clone(scn); c["pert"]["nan_values"] = False; yield c
     if dp.get("whole_head"):
         c = clone(scn); c["data"]["whole_head"] = None; c["cfg"]["g_format"] = False; yield c
     for x in list(dp["spec_extra"]):
